@@ -155,7 +155,7 @@ impl<'a, 'tcx> D<'a, 'tcx> {
             Float(s, _) => J::obj().fs("lk", "float").fs("v", s.as_str()).done(),
             Bool(b) => J::obj().fs("lk", "bool").fb("v", *b).done(),
             Byte(b) => J::obj().fs("lk", "byte").fn_("v", *b as i64).done(),
-            ByteStr(..) => J::obj().fs("lk", "bytestr").done(),
+            ByteStr(b, _) => J::obj().fs("lk", "bytestr").fs("v", b.as_byte_str().iter().map(|x| format!("{:02x}", x)).collect::<String>()).done(),
             CStr(..) => J::obj().fs("lk", "cstr").done(),
             Err(_) => J::obj().fs("lk", "err").done(),
         }
